@@ -41,6 +41,11 @@ func ZZNoInfraErrorFull(shape, a, b int) {
 	case 3: // overwrite of the ephemeral indexed record by a plain put with other indexes; ranges with awkward bounds
 		req.Puts = append(req.Puts, &proto.PutRequest{Key: "e", Value: []byte("w"), SecondaryIndexes: []*proto.SecondaryIndex{{IndexName: x, SecondaryKey: "k"}, {IndexName: x, SecondaryKey: "k"}}})
 		req.DeleteRanges = append(req.DeleteRanges, &proto.DeleteRangeRequest{StartInclusive: x, EndExclusive: y})
+	case 4: // the SAME index pair listed twice (the client library does not de-duplicate), then overwrite, delete, range
+		req.Puts = append(req.Puts, &proto.PutRequest{Key: "r", Value: []byte("v"), SecondaryIndexes: []*proto.SecondaryIndex{{IndexName: x, SecondaryKey: y}, {IndexName: x, SecondaryKey: y}}})
+		follow.Puts = append(follow.Puts, &proto.PutRequest{Key: "r", Value: []byte("w"), SecondaryIndexes: []*proto.SecondaryIndex{{IndexName: x, SecondaryKey: y}, {IndexName: x, SecondaryKey: y}}})
+		follow.Deletes = append(follow.Deletes, &proto.DeleteRequest{Key: "r"})
+		follow.DeleteRanges = append(follow.DeleteRanges, &proto.DeleteRangeRequest{StartInclusive: "q", EndExclusive: "s"})
 	}
 	_, err = d.ProcessWrite(req, 1, 11, WrapperUpdateOperationCallback)
 	internalRange := shape == 3 && err != nil
